@@ -81,6 +81,9 @@ func (c *VPacketConn) WriteTo(p []byte, addr net.Addr) (int, error) {
 	c.Writes = append(c.Writes, VWrite{P: cp, Addr: addr})
 	if c.Failing {
 		if vBool() {
+			if vBool() {
+				return 0, vTimeoutErr{} // a timeout-class net.Error is a write failure like any other
+			}
 			return 0, net.ErrClosed
 		}
 		n := vInt()
@@ -110,6 +113,8 @@ type VConn struct {
 	In       chan []byte
 	WGate    chan struct{}
 	inClosed bool
+	// deadlines currently set on the connection (zero = none)
+	RDeadline, WDeadline time.Time
 }
 
 func (c *VConn) Read(p []byte) (int, error) {
@@ -144,9 +149,19 @@ func (c *VConn) Close() error {
 }
 func (c *VConn) LocalAddr() net.Addr                { return c.Local }
 func (c *VConn) RemoteAddr() net.Addr               { return c.Remote }
-func (c *VConn) SetDeadline(t time.Time) error      { c.Deadlines++; return nil }
-func (c *VConn) SetReadDeadline(t time.Time) error  { return nil }
-func (c *VConn) SetWriteDeadline(t time.Time) error { return nil }
+func (c *VConn) SetDeadline(t time.Time) error {
+	c.Deadlines++
+	c.RDeadline, c.WDeadline = t, t
+	return nil
+}
+func (c *VConn) SetReadDeadline(t time.Time) error  { c.RDeadline = t; return nil }
+func (c *VConn) SetWriteDeadline(t time.Time) error { c.WDeadline = t; return nil }
+
+type vTimeoutErr struct{}
+
+func (vTimeoutErr) Error() string   { return "i/o timeout" }
+func (vTimeoutErr) Timeout() bool   { return true }
+func (vTimeoutErr) Temporary() bool { return true }
 
 // VListener is a fake net.Listener: Accept returns scripted conns, then net.ErrClosed.
 type VListener struct {
